@@ -54,7 +54,8 @@ SWEEP_RULE = (
     "direction flag (proper / flipped) x transmission mode x CRC flag x entity id width (1, 2, 4, 8) x handler state (no "
     "transaction, mid-transfer, waiting for the EOF acknowledgement, waiting for Finished) x receiving entity (the one the "
     "PDU kind is meant for / the other one), each delivered once as routed by get_packet_destination and once, in a second "
-    "identical world, to the other handler of that entity (misroute fault)"
+    "identical world, to the other handler of that entity (misroute fault); plus every cell of acknowledge_inactive_eof_pdu: "
+    "condition code (all defined) x transaction status (4) x mode x CRC flag x id width"
 )
 
 
@@ -70,10 +71,85 @@ def SWEEP(tier):
                                 for mis in (0, 1):
                                     cells.append({"kind": kind, "flip": flip, "mode": mode, "crc": crc, "idw": idw, "state": state,
                                                   "at": at, "misroute": mis})
+    # the helper that acknowledges an EOF PDU of an inactive transaction: every condition code x status x mode x CRC x id width
+    for cond in range(16):
+        for status in range(4):
+            for mode in (0, 1):
+                for crc in (0, 1):
+                    for idw in (1, 2, 4, 8):
+                        cells.append({"kind": "HELPER", "cond": cond, "status": status, "mode": mode, "crc": crc, "idw": idw})
     return cells
 
 
+def _helper_cell(p):
+    """acknowledge_inactive_eof_pdu on one EOF PDU: ACK (EOF) towards the sender, the EOF's condition code, the given
+    status; the ACTIVE status is refused; the ACK survives the codec."""
+    import hashlib
+
+    from cfdpsim.runner import RunResult
+    from cfdpsim.world import Violation, hash_sig, parse_pdu, pdu_info, tid_of
+    from cfdppy.handler.dest import acknowledge_inactive_eof_pdu
+    from spacepackets.cfdp import ConditionCode, CrcFlag, PduConfig, TransmissionMode
+    from spacepackets.cfdp.pdu import EofPdu, TransactionStatus
+    from spacepackets.cfdp.tlv import EntityIdTlv
+    from spacepackets.util import UnsignedByteField
+
+    r = RunResult()
+    log = [f"helper cell {p}"]
+    viol = []
+    try:
+        cond = ConditionCode(p["cond"])
+    except ValueError:
+        cond = None
+    if cond is not None:
+        conf = PduConfig(UnsignedByteField(1, p["idw"]), UnsignedByteField(2, p["idw"]), UnsignedByteField(7, 2),
+                         [TransmissionMode.ACKNOWLEDGED, TransmissionMode.UNACKNOWLEDGED][p["mode"]],
+                         crc_flag=CrcFlag.WITH_CRC if p["crc"] else CrcFlag.NO_CRC)
+        floc = None if cond == ConditionCode.NO_ERROR else EntityIdTlv(bytes(UnsignedByteField(1, p["idw"]).as_bytes))
+        eof = EofPdu(conf, b"\x01\x02\x03\x04", 12, floc, cond)
+        st = TransactionStatus(p["status"])
+        want_tid = tid_of(eof)
+        try:
+            ack = acknowledge_inactive_eof_pdu(eof, st)
+        except ValueError:
+            ack = None
+            if st != TransactionStatus.ACTIVE:
+                viol.append(Violation("C20.inactive_ack", f"status={int(st)} cond={int(cond)} refused", ""))
+        except Exception as e:  # noqa: BLE001
+            ack = None
+            viol.append(Violation("C20.inactive_ack", f"status={int(st)} cond={int(cond)} raises {type(e).__name__}", str(e)[:80]))
+        if ack is not None:
+            if st == TransactionStatus.ACTIVE:
+                viol.append(Violation("C20.inactive_ack_active_refused", "no exception", f"cond={int(cond)}"))
+            else:
+                raw = bytes(ack.pack())
+                again = parse_pdu(raw)
+                for obj, tag in ((ack, "object"), (again, "bytes")):
+                    if obj is None:
+                        viol.append(Violation("C20.inactive_ack", f"ACK does not survive the codec cond={int(cond)}", ""))
+                        continue
+                    inf = pdu_info(obj)
+                    if inf[1] != 4 or inf[2] != int(cond) or inf[3] != int(st) or int(obj.pdu_header.direction) != 1 or tid_of(obj) != want_tid:
+                        viol.append(Violation("C20.inactive_ack", f"{tag}: {inf} dir={int(obj.pdu_header.direction)} want cond={int(cond)} status={int(st)}", ""))
+        r.nontrivial = True
+    r.violations = viol
+    for v in viol:
+        log.append(f"  !! VIOLATION {v.clause} | {v.locus} | {v.detail}")
+    r.sig = hash_sig(("helper", p["cond"], p["status"], p["mode"], p["crc"], p["idw"]))
+    r.nstates = 1
+    r.probes = {"C20.helper_cell": 1}
+    r.events = 1
+    r.calls = 1
+    r.log = log
+    r.digest = hashlib.sha256("\n".join(log).encode()).hexdigest()[:16]
+    r.cfg = {"sweep": p}
+    r.pop = "helper_sweep"
+    return r
+
+
 def run_sweep(p):
+    if p["kind"] == "HELPER":
+        return _helper_cell(p)
     f = {"mode": [ACK, UNACK][p["mode"]], "crc": bool(p["crc"]), "idw_a": p["idw"], "idw_b": p["idw"], "shell": "plain", "size_sel": 6,
          "vfs": "mem", "msgs": 0, "closure": True, "metadata_only": False, "ack_s": 1000.0, "nak_s": 1000.0, "check_s_recv": 1000.0,
          "check_s_send": 1000.0}
